@@ -113,7 +113,7 @@ func (valdec mapDecoder) decodeListAsMap(dec *Decoder, p interface{}, tag byte) 
 	if !dec.enter() {
 		count = 0
 	}
-	valdec.t.UnsafeSet(mp, valdec.t.UnsafeMakeMap(dec.prealloc(count)))
+	valdec.t.UnsafeSet(mp, valdec.t.UnsafeMakeMap(dec.preallocCount(count)))
 	dec.AddReference(p)
 	kp := valdec.kt.UnsafeNew()
 	vp := valdec.vt.UnsafeNew()
@@ -136,7 +136,7 @@ func (valdec mapDecoder) decodeMap(dec *Decoder, p interface{}) {
 	if !dec.enter() {
 		count = 0
 	}
-	valdec.t.UnsafeSet(mp, valdec.t.UnsafeMakeMap(dec.prealloc(count)))
+	valdec.t.UnsafeSet(mp, valdec.t.UnsafeMakeMap(dec.preallocCount(count)))
 	dec.AddReference(p)
 	kp := valdec.kt.UnsafeNew()
 	vp := valdec.vt.UnsafeNew()
